@@ -397,6 +397,8 @@ def c05(tier):
         qs.append(rq('rcu_writer_short_R3', 'BC', 3, defines=d))
         qs.append(rq('rcu_abc_R2_o012', 'ABC', 2, order=(0, 1, 2), defines=d))
         qs.append(rq('rcu_abc_R2_o120', 'ABC', 2, order=(1, 2, 0), defines=d))
+        # a stale second erase (neighbour erased meanwhile) must not re-link retired nodes: a later handle would walk into freed memory
+        qs.append(rq('rcu_eraser2_stale_eraser_short_R2', 'BDC', 2, order=(1, 0, 2), defines=['ERASE_POS=0', 'ERASE_TWO', 'W2_ERASE_FIRST']))
     else:
         for o in orders(3, 'all'):
             qs.append(rq('rcu_abc_R2_o' + ''.join(map(str, o)), 'ABC', 2, order=o, defines=d, timeout=3000, solvers=('kissat', 'cadical', 'minisat')))
